@@ -45,6 +45,31 @@ theorem getitem_dotted_of_getitem (b : Bool) : ∀ (p : Path) (t : Val) (v : Val
 theorem getitem_paths_any_class (b : Bool) (t : Val) (h : wf t = true) (p : Path) (v : Val) (hm : (p, v) ∈ items t) :
     getItemC b t p = .ok v := getitem_dotted_of_getitem b p t v (getitem_paths t h p v hm)
 
+/-- **paths spelled as dotted STRINGS** (`tree_getitem(t, 'a.b.c')`, part of `observe_at`; review t2: no theorem): the code splits
+the string on dots first (`_tree.py`: `path.split('.')`; driver op `gets`: `String.splitOn`), so the string spelling `s` of a
+listed path `p` reads `p`'s leaf exactly when splitting gives `p` back (`hs`: the join/split round trip - it holds iff `p` is
+non-empty and no key of `p` holds a dot; a fact about `str.split`, assumed and sampled, see the `#guard`s below) -/
+theorem getitem_string_paths (b : Bool) (t : Val) (h : wf t = true) (p : Path) (v : Val) (hm : (p, v) ∈ items t)
+    (s : String) (hs : s.splitOn "." = p) : getItemC b t (s.splitOn ".") = .ok v := by
+  rw [hs]; exact getitem_paths_any_class b t h p v hm
+
+/-- ... and NOT otherwise: in `{'a.b': 5, 'a': {'b': 6}}` the path `('a.b',)` is listed with leaf 5, but its string spelling
+`'a.b'` is split into the OTHER listed path `('a', 'b')` and reads 6 (real code: `tree_getitem({'a.b':5,'a':{'b':6}}, 'a.b') == 6`).
+The clause "tree_getitem returns the leaf for every listed path" is a statement about LIST paths (`getitem_paths`); for string
+spellings it holds for dot-free keys only. -/
+theorem getitem_string_dotted_key_witness :
+    wf (.dict [("a.b", .cell (.int 5)), ("a", .dict [("b", .cell (.int 6))])]) = true ∧
+    items (.dict [("a.b", .cell (.int 5)), ("a", .dict [("b", .cell (.int 6))])]) =
+      [(["a.b"], Val.cell (.int 5)), (["a", "b"], Val.cell (.int 6))] ∧
+    getItemC true (.dict [("a.b", .cell (.int 5)), ("a", .dict [("b", .cell (.int 6))])]) ["a.b"] = .ok (.cell (.int 5)) ∧
+    getItemC true (.dict [("a.b", .cell (.int 5)), ("a", .dict [("b", .cell (.int 6))])]) ["a", "b"] = .ok (.cell (.int 6)) := by
+  refine ⟨by decide, by decide, ?_, ?_⟩ <;> simp [getItemC, lookup, pure, Except.pure]
+
+#guard ".".intercalate ["a", "b", "c"] == "a.b.c" && "a.b.c".splitOn "." == ["a", "b", "c"] && "a".splitOn "." == ["a"]
+#guard (".".intercalate ["a.b"]).splitOn "." == ["a", "b"]            -- a key holding a dot does not survive the round trip
+#guard (match getItemC true (.dict [("a.b", .cell (.int 5)), ("a", .dict [("b", .cell (.int 6))])]) ("a.b".splitOn ".") with
+  | .ok v => v == .cell (.int 6) | _ => false)
+
 /-- for plain dicts the class-aware walk IS the plain walk -/
 theorem getitem_plain : ∀ (p : Path) (t : Val), getItemC false t p = getItem t p
   | [], t => by cases t <;> rfl
